@@ -40,7 +40,7 @@ KEYS = {"pathways": PTYPES, "types": PTYPES, "processes": sorted(PROCESSES), "si
 CONVERT_OK = {("pathways", "types"), ("pathways", "processes"), ("pathways", "signals"), ("pathways", "off"),
               ("types", "processes"), ("types", "signals"), ("types", "off"), ("processes", "off"),
               ("signals", "off")}
-TAGS = ["a", "b", "c", "d"]
+TAGS = ["a", "b", "c", "d", 0, 1, ""]        # string and integer tags, including the ones that evaluate false
 MODES = ["cur", "cur", "cur", "cur", "same", "cross", "badkey", "badtag"]
 
 
